@@ -295,13 +295,9 @@ def geq_leq_zero(
     lt_zero = _compare_to_zero(
         f, bounds, check_lt_zero=True, terms_do_not_cross_zero=terms_do_not_cross_zero
     )
-    if terms_do_not_cross_zero and lt_zero:
-        return ComparisonResult.ALWAYS_LEQ_THAN_ZERO
     gt_zero = _compare_to_zero(
         f, bounds, check_lt_zero=False, terms_do_not_cross_zero=terms_do_not_cross_zero
     )
-    if terms_do_not_cross_zero and gt_zero:
-        return ComparisonResult.ALWAYS_GEQ_THAN_ZERO
 
     if lt_zero and gt_zero:
         return ComparisonResult.UNKNOWN
